@@ -32,6 +32,16 @@
 (*   irej   own grid, vector rising by a factor of 100; one whole standard *)
 (*          is off by 100 sigma_c: inconsistent -> rejected with EDOM; the *)
 (*          first point's value would make it a 2 sigma deviation          *)
+(*   rdacc / rdrej  the noise model is declared more than once on the same  *)
+(*          vnacal_new_t; only the last declaration counts.  History (vec): *)
+(*          "regrid" an earlier declaration with values 100x smaller       *)
+(*          (rdacc) / larger (rdrej) on another kind of grid; "offon" the   *)
+(*          same, disabled with (NULL, NULL) in between; "trnull" an        *)
+(*          earlier declaration with the same noise floor and sigma_tr =    *)
+(*          0.1, the final one with sigma_tr_vector NULL.  Data: noise of   *)
+(*          0.3 sigma (final declaration); rdacc: consistent -> accepted;   *)
+(*          rdrej: plus one standard off by 100 sigma -> EDOM.  A value     *)
+(*          surviving from the earlier declaration flips the verdict        *)
 (*   det    one port, short / open / match only: exactly as many equations *)
 (*          as error terms.  The data fit any error model exactly (there   *)
 (*          is no residual), so enabling the model must neither change the *)
@@ -52,7 +62,8 @@ EXTENDS Integers, FiniteSets
 Types  == {"T8", "U8", "TE10", "UE10", "T16", "U16", "UE14", "E12"}
 TTypes == {"T8", "TE10", "T16"}
 Grids  == {"one", "cal", "two", "n"}
-DetKinds  == {"exact", "iacc", "irej", "few", "det"}
+DetKinds  == {"exact", "iacc", "irej", "few", "det", "rdacc", "rdrej"}
+Histories == {"trnull", "regrid", "offon"}
 RateKinds == {"noisy", "outlier"}
 
 (* vnacal_new(3): more columns than rows needs T terms, more rows than     *)
@@ -86,12 +97,21 @@ IsConfig(x) ==
             (* The rate clause ("all but rare cases") covers that regime;  *)
             (* the deterministic rejection scenarios stay below it.        *)
             /\ x.kind = "irej" => x.st # 1
+       ELSE IF x.kind \in {"rdacc", "rdrej"}
+       THEN /\ x.vec \in Histories
+            (* the earlier declaration is 100x off and must itself stay    *)
+            (* inside the stated ranges                                    *)
+            /\ x.kind = "rdacc" => (x.sn \in 2..4 /\ x.st \in {0, 1, 2, 3})
+            /\ x.kind = "rdrej" => (x.sn \in 4..6 /\ x.st \in {0, 3, 4, 5})
+            (* "trnull": the earlier declaration had sigma_tr = 0.1, the   *)
+            (* final one gives sigma_tr_vector = NULL                      *)
+            /\ x.vec = "trnull" => (x.kind = "rdrej" /\ x.st = 0)
        ELSE x.vec = "-"
 
 Configs ==
     {x \in [ty : Types, r : 1..3, c : 1..3, sn : 2..6, st : 0..5,
             grid : Grids, kind : DetKinds \cup RateKinds,
-            vec : {"nf", "tr", "-"}] : IsConfig(x)}
+            vec : {"nf", "tr", "-"} \cup Histories] : IsConfig(x)}
 
 -----------------------------------------------------------------------------
 (* deterministic contract: what one scenario's outcome must be *)
